@@ -1901,13 +1901,13 @@ class Compiler:
         # enclosing loop (if any); it is put back when this loop is done.
         previous = identifier("__repeat", id(node))
         outer += template(
-            "try: PREVIOUS = getname('repeat')[key]\n"
+            "try: PREVIOUS = econtext['__repeat'][key]\n"
             "except KeyError: PREVIOUS = __marker",
             key=key, PREVIOUS=previous
         )
 
         outer += template(
-            "__iterator, INDEX = getname('repeat')(key, __iterator)",
+            "__iterator, INDEX = econtext['__repeat'](key, __iterator)",
             key=key, INDEX=index
         )
 
@@ -1940,7 +1940,8 @@ class Compiler:
         )]
 
         outer += template(
-            "if PREVIOUS is not __marker: getname('repeat')[key] = PREVIOUS",
+            "if PREVIOUS is not __marker:\n"
+            "    econtext['__repeat'][key] = PREVIOUS",
             key=key, PREVIOUS=previous
         )
 
